@@ -594,7 +594,6 @@ Proof.
   specialize (IH w1 Hu1 Hi1 Hops). destruct (run fixed w1 ops) as [w2 xs]. cbn [fst] in *. congruence.
 Qed.
 
-Definition empty_world (cs : list (cid * charac)) : world := mkWorld [] [] cs [] [].
 Lemma empty_world_ok cs : (forall c, unv (empty_world cs) c) /\ world_ps_inv (empty_world cs).
 Proof. split; [intros c; split; [reflexivity|cbn; discriminate]|intros c cn; cbn; discriminate]. Qed.
 
@@ -662,3 +661,33 @@ Lemma hap_nonvacuous :
   nth 8 rs RPanic = RRefused470 /\
   nth 10 rs RPanic = RChars 207 [((2, 9), Some (VBool true), Some 0%Z); ((7, 7), None, Some (-70402)%Z)].
 Proof. vm_compute. repeat split; reflexivity. Qed.
+
+(** ---- C04: a correct controller always gets through, from any world, on a fresh connection ---- *)
+Lemma store_get_put s n k : store_get (store_put s n k) n = Some k.
+Proof. unfold store_put. cbn [store_get]. rewrite eqb_bytes_refl'. reflexivity. Qed.
+
+Ltac symstep := cbn [run step]; unfold upd_conn; cbn [conns]; rewrite ?get_set_conn_same; cbn.
+
+Lemma honest_run w c n pk :
+  let ops := [OConnect c;
+              OReq c TPlain (EPairSetup PSStart); OReq c TPlain (EPairSetup (PSVerify AValid PRight));
+              OReq c TPlain (EPairSetup (PSKeyExch KSession (IGenuine n pk) false));
+              OReq c TPlain (EPairVerify (PVStart true)); OReq c TPlain (EPairVerify (PVFinish true false true n SGenuine));
+              OReq c TSession EAccessories] in
+  let '(w', rs) := run fixed w ops in
+  rs = [RNoContent; RTlv 2 None; RTlv 4 None; RTlv 6 None; RTlv 2 None; RTlv 4 None; RAccessories (db_of w)] /\
+  store w' = store_put (store w) n pk /\ verified w' c = true /\ chars w' = chars w.
+Proof.
+  cbn zeta. do 8 (symstep; rewrite ?get_set_conn_same; rewrite ?eqb_bytes_refl').
+  unfold verified, db_of. cbn. rewrite ?get_set_conn_same. cbn. auto.
+Qed.
+
+(** a wrong setup code is answered with authentication error 2 and stores nothing *)
+Lemma wrong_code_run w c n pk :
+  let ops := [OConnect c; OReq c TPlain (EPairSetup PSStart); OReq c TPlain (EPairSetup (PSVerify AValid PWrong));
+              OReq c TPlain (EPairSetup (PSKeyExch KOther (IGenuine n pk) false))] in
+  let '(w', rs) := run fixed w ops in
+  rs = [RNoContent; RTlv 2 None; RTlv 4 (Some 2); RHttp500] /\ store w' = store w.
+Proof.
+  cbn zeta. do 5 (symstep; rewrite ?get_set_conn_same). auto.
+Qed.
